@@ -338,6 +338,7 @@ class OalFaultEngine(Engine):
         def bump(d, k, n=1):
             d[k] = d.get(k, 0) + n
 
+        redos_dt = {}
         try:
             for step, op in enumerate(case['ops']):
                 k = op['k']
@@ -393,9 +394,17 @@ class OalFaultEngine(Engine):
                                     % (op, cfg['body'], type(e).__name__, e, where, text[-160:]),
                                     'parse-exception:%s:%s' % (type(e).__name__, where))
                 dt = time.perf_counter() - t0
-                if dt > cfg.get('slow_s', self.SLOW_S) and not metered:
+                if dt > cfg.get('slow_s', self.SLOW_S) * (2 if metered else 1):     # line metering slows python code down
                     raise Violation('stall', 'fault %r on %s: parsing %d characters took %.1f s of wall time (budget %.1f s)'
                                     % (op, cfg['body'], len(text), dt, cfg.get('slow_s', self.SLOW_S)), 'stall:wall')
+                if k == 'redos':
+                    # growth, not only absolute time: the same opening and unit at the next smaller length (a third
+                    # shorter at most) took far less -- super-linear cost whatever the load of the machine
+                    prev = redos_dt.get((op['o'], op['u']))
+                    if prev and op['n'] > prev[0] and dt > 0.4 and dt > 12 * max(prev[1], 0.002) * (op['n'] / prev[0]):
+                        raise Violation('stall', 'fault %r on %s: parsing took %.2f s where %d repetitions took %.3f s: '
+                                        'super-linear growth' % (op, cfg['body'], dt, prev[0], prev[1]), 'stall:growth')
+                    redos_dt[(op['o'], op['u'])] = (op['n'], dt)
                 bump(probes, '%s_%s' % (k, outcome))
                 if tree is not None:
                     if not isinstance(tree, oal.Node):
